@@ -67,6 +67,22 @@ fn main() {
             let code = driver::run_replay(&eng, prop, &PathBuf::from(&args[3]));
             std::process::exit(code);
         }
+        "profiles" => {
+            // generator audit: which operation kinds a property's profile never generates
+            for i in 1..=19 {
+                let prop = format!("C{:02}", i);
+                if prop == "C17" || prop == "C18" {
+                    continue;
+                }
+                let pr = conc::props::profile(&prop, "quick");
+                let missing: Vec<String> = common::ops::ALL_K
+                    .iter()
+                    .filter(|k| !pr.weights.iter().any(|(k2, w)| k2 == *k && *w > 0))
+                    .map(|k| format!("{:?}", k))
+                    .collect();
+                println!("{} missing kinds: {}", prop, missing.join(" "));
+            }
+        }
         "enum" => {
             let prop = args[2].clone();
             let tier = args.get(3).cloned().unwrap_or_else(|| "quick".into());
